@@ -63,3 +63,35 @@ func IdleLoops(r *rig.Rng) *Program {
 	h.B(rom[:0x4000])
 	return &Program{ROM: rom, Hash: h.Sum(), CartType: 0, Items: items, Seed: "idle-loops"}
 }
+
+// StopLoop builds a program that keeps entering STOP mode (left only by a key press) between
+// stretches of work that leave a visible trail (register arithmetic, HRAM counters, JOYP reads,
+// objects moved on screen).
+func StopLoop(r *rig.Rng) *Program {
+	rom := rig.BlankROM(0, 0, 0)
+	pc := 0x150
+	emit := func(b ...byte) { copy(rom[pc:], b); pc += len(b) }
+	io := func(reg, v uint8) { emit(0x3e, v, 0xe0, reg) }
+	rig.Put(rom, 0x100, 0x00, 0xc3, 0x50, 0x01)
+	emit(0x31, 0xf0, 0xdf)
+	io(0x00, uint8(r.Intn(4))<<4) // JOYP select
+	loop := pc
+	for k := 0; k < 30; k++ {
+		for n := 1 + r.Intn(6); n > 0; n-- {
+			emit([]byte{0x04, 0x0c, 0x14, 0x1c, 0x24, 0x2c, 0x3c, 0x80, 0x88}[r.Intn(9)])
+		}
+		emit(0xf0, 0x00, 0x47)                             // LDH A,(00); LD B,A
+		emit(0xf0, 0x80, 0x3c, 0xe0, 0x80)                 // counter in HRAM
+		emit(0x3e, r.U8(), 0xea, uint8(r.Intn(160)), 0xfe) // an OAM byte
+		if r.Chance(2, 3) {
+			emit(0x10, 0x00) // STOP
+		}
+		for n := r.Intn(200); n > 0; n-- {
+			emit(0x00)
+		}
+	}
+	emit(0xc3, uint8(loop), uint8(loop>>8))
+	h := rig.NewHasher()
+	h.B(rom[:0x4000])
+	return &Program{ROM: rom, Hash: h.Sum(), CartType: 0, Items: 30, Seed: "stop-loop"}
+}
